@@ -206,7 +206,9 @@ func (c *twistPoint) Neg(a *twistPoint) {
 	c.x.Set(&a.x)
 	c.y.Neg(&a.y)
 	c.z.Set(&a.z)
-	c.t.SetZero()
+	// t caches z² and the Miller loop relies on it; zeroing it made the
+	// pairing of a negated affine point wrong
+	c.t.Set(&a.t)
 }
 
 // Clone makes a deep copy of the point
